@@ -386,6 +386,26 @@ def check_case(case, ctx):
         "solved_by",
         f"subclass CustomRuleSolver recorded solved_by={sub_sched.metadata.get('solved_by')!r}",
     )
+    # a portfolio-style user solver whose solve() obtains its schedule from
+    # another solver: calling IT records ITS class name and a non-negative time
+    from job_shop_lib import BaseSolver
+
+    class BestOfTwo(BaseSolver):
+        def solve(self, instance):
+            first = DispatchingRuleSolver("most_work_remaining")(instance)
+            second = solver(instance)
+            return first if first.makespan() <= second.makespan() else second
+
+    random.seed(case["seed"] + 4)
+    outer = BestOfTwo()(build_instance(inst))
+    ctx.check(
+        outer.metadata.get("solved_by") == "BestOfTwo"
+        and isinstance(outer.metadata.get("elapsed_time"), float)
+        and outer.metadata.get("elapsed_time") >= 0,
+        "solved_by",
+        f"a solver that returns another solver's schedule recorded solved_by={outer.metadata.get('solved_by')!r}, "
+        f"elapsed_time={outer.metadata.get('elapsed_time')!r}",
+    )
     # direct call
     random.seed(case["seed"] + 1)
     instance2 = build_instance(inst)
